@@ -355,29 +355,46 @@ class Executor:
         v = env.get(c)
         if v is not None and v.term is not None:
             return v
-        v = self.initial.get(c)
+        ac = self.alias_resolve(env, c)
+        v = self.initial.get(ac)
         if v is None:
             sort = sort_of_type(self.place_type(c, ty))
             if sort is None:
                 sort = 64  # opaque handle
-            v = Val(self.ctx.sym("in." + c, sort), sort)
-            self.initial[c] = v
+            v = Val(self.ctx.sym("in." + ac, sort), sort)
+            self.initial[ac] = v
         env[c] = v
         return v
+
+    def alias_resolve(self, env, c):
+        """place whose entry value c still denotes (after whole-aggregate copies / moves)"""
+        for _ in range(6):
+            hit = None
+            for k, a in env.items():
+                if k.startswith("alias(") and a.ref is not None:
+                    p = k[6:-1]
+                    if sub_of(c, p):
+                        hit = (p, a.ref)
+                        break
+            if hit is None:
+                return c
+            c = c.replace(hit[0], hit[1], 1)
+        return c
 
     def read_discr(self, env, c):
         k = "discr(%s)" % c
         v = env.get(k)
         if v is None:
-            v = self.initial.get(k)
+            ak = "discr(%s)" % self.alias_resolve(env, c + ".@")[:-2]
+            v = self.initial.get(ak)
             if v is None:
-                v = Val(self.ctx.sym("discr." + c, 64), 64)
-                self.initial[k] = v
+                v = Val(self.ctx.sym("discr." + ak[6:-1], 64), 64)
+                self.initial[ak] = v
             env[k] = v
         return v
 
     def kill(self, env, c):
-        for k in [k for k in env if sub_of(k, c)]:
+        for k in [k for k in env if sub_of(k, c) or (k.startswith("alias(") and (k[6:-1] == c or sub_of(c, k[6:-1])))]:
             del env[k]
         # entry values below c are no longer valid on this path: shadow them with havoc
         for k, v0 in self.initial.items():
@@ -590,6 +607,8 @@ class Executor:
             if src is not None:
                 self.copy_tree(env, src, c)
                 env[c] = v
+                # sub-places not known yet keep referring to the source's entry values
+                env["alias(%s)" % c] = Val(None, None, ref=self.alias_resolve(env, src))
             else:
                 self.kill(env, c)
                 env[c] = v
@@ -675,11 +694,13 @@ class Executor:
         env[c] = Val(self.ctx.sym("hv." + c, sort), sort)
 
     def store(self, env, node, guard, c, v, is_ref_write):
+        prev = env.get(c)
         self.kill(env, c)
         t = self.ctx.define("v." + c, v.sort, v.term)
         env[c] = Val(t, v.sort)
         if is_ref_write:
-            self.events.append(Event("write", guard, node, place=c, value=t, sort=v.sort))
+            self.events.append(Event("write", guard, node, place=c, value=t, sort=v.sort,
+                                     prev=prev.term if prev is not None and prev.sort == v.sort else None))
 
     # ------------------------------------------------------------ calls
     def call(self, env, node, guard, t):
